@@ -8,7 +8,7 @@ package oracle
 // entry names: a feed missing from its state queue is never found by Start/Pause and its state can no longer change
 // (C17, C12).
 //@ func InitGenesis(ctx, k, data)
-//@   property C17
+//@   property C17, C12
 //@   modifies feeds, byCtx, values, fstate
 //@   invariant #1 idx:  rangeindex >= 0 - 1 && rangeindex < len(data.Entries)
 //@   invariant #1 done: forall j:Int :: 0 <= j && j <= rangeindex ==> has(feeds, data.Entries[j].Feed.FeedName)
